@@ -289,13 +289,10 @@ def oracle_xfers(xfers, arrival, dgram_lists, obs):
         (apeer, atix, _adix) = arrival[step]
         if peer != apeer:
             return 'bundle attributed to peer %s but queued by a datagram of peer %s' % (peer, apeer)
-        if len(dgram_lists[atix]) == 1:
-            want = [datas[atix]]
-        else:
-            want = [datas[tix] for (pr, tix) in per_key if pr == peer and len(dgram_lists[tix]) > 1]
-        if got not in want:
-            return 'queued bundle of %d octets is not a bundle sent to it (partial or corrupted)' % len(got)
-        tix = atix if got == datas[atix] else [t for (pr, t) in per_key if pr == peer and datas[t] == got][0]
+        if got != datas[atix]:
+            return ('bundle of %d octets queued by a datagram of transfer %d is not that transfer\'s bundle '
+                    '(partial or corrupted)' % (len(got), atix))
+        tix = atix
         arrived = set(dix for (stp, dix) in per_key[(peer, tix)] if stp <= step)
         if arrived != set(range(len(dgram_lists[tix]))):
             return 'bundle queued while datagram(s) %s of its transfer had not arrived' % sorted(
@@ -476,13 +473,13 @@ def gen_xfer_cases(chk, scale=1):
     quick = chk.quick() and scale == 1
     cases = []
     # every permutation, one transfer
-    for nseg in (1, 2, 3, 4, 5):
+    for nseg in (2, 3, 4, 5):
         for rep in range((2 if quick else 6) * scale):
             xfer = pick_xfer(rng, nseg, tight=(rep == 0))
             limit = 30 if (quick and nseg == 5 and rep > 0) else None
             for order in expand_orders(rng, nseg, limit):
                 cases.append(([xfer], [(1, 0, dix) for dix in order], 'perm'))
-    # unsegmented bundle datagrams are not judged here (the payload must be a CBOR array: suite recv)
+    # (a bundle that fits is one datagram that must itself be a CBOR array to be queued: suites multi / recv)
     # more segments, random orders
     for _ in range((6 if quick else 80) * scale):
         nseg = rng.choice([6, 7, 9, 12, 20])
@@ -619,11 +616,6 @@ def gen_recv_cases(chk, scale=1):
             arrival.append((rng.choice([1, 1, 2, 3]), dgram))
         cases.append(arrival)
     return cases
-
-
-def starts_dtls(arrival):
-    ''' with a socket the DTLS first octets start a real handshake: those run as DTLS plaintext (sock None) '''
-    return any(dgram[:1] and 20 <= dgram[0] <= 23 for (_p, dgram) in arrival)
 
 
 # ----------------------------------------------------------------------------------------------
@@ -785,7 +777,7 @@ def run_all(chk):
         chk.count('multi_padding', 'none' if not pad else ('zeros' if not pad.strip(b'\x00') else 'zero then octets'))
     # peer-crafted arrivals
     for arrival in gen_recv_cases(chk):
-        obs = real_recv(arrival, plain=not starts_dtls(arrival))
+        obs = real_recv(arrival, plain=False)
         recv_cases.append((arrival, obs))
         chk.case(('recv', tuple(arrival)), nontrivial=len(arrival) > 1, sample=None)
         chk.count('recv_crafted_outcome', 'raised' if any(r for (_n, r) in obs['trace']) else ('queued' if obs['queue'] else 'nothing-queued'))
